@@ -580,3 +580,38 @@ def rule_domain_builders(db: ProgramDB) -> List[Instance]:
     if n < 2:
         raise AnalysisError(f"only {n} construction(s) of a Variable over a domain found")
     return out
+
+
+# ---------------------------------------------------------------------------------- KWARGS-NAMESPACE
+def rule_kwargs_namespace(db: ProgramDB) -> List[Instance]:
+    """On the constructor path of @symbol classes and @predicate functions `**kwargs` carries the USER's field / parameter names.  A
+    function that takes them next to named parameters of its own shares one namespace with them: a field called like one of
+    those parameters (`domain`, `function`, …) is 'a second value for the argument'.  The own parameters are positional-only (or
+    the function takes nothing but `*args, **kwargs`)."""
+    out = []
+    carriers = []
+    for q in ("predicate:symbol.<locals>.symbolic_new", "predicate:symbol.<locals>.hybrid_new", "predicate:update_domain_and_kwargs_from_args",
+              "predicate:extract_selected_variable_and_expression", "predicate:instantiate_class_and_update_cache", "predicate:predicate.<locals>.wrapper"):
+        f = db.fn(q, required=False)
+        if f is None:
+            raise AnalysisError(f"anchor vanished: {q}")
+        carriers.append(f)
+    # methods of Variable that are handed the user's keyword arguments
+    var = db.cls("Variable")
+    for m in var.methods.values():
+        if m.cls is var and m.node.args.kwarg is not None:
+            carriers.append(m)
+    for f in carriers:
+        a = f.node.args
+        if a.kwarg is None:
+            continue
+        named = [x.arg for x in a.args if x.arg not in ("self", "cls")] + [x.arg for x in a.kwonlyargs]
+        ok = not named
+        out.append(inst("KWARGS-NAMESPACE", HOLDS if ok else VIOLATION, f, f"{f.short}[own parameters apart from the user's names]",
+                        "its own parameters are positional-only" if ok else
+                        f"{f.short} takes `{', '.join(named)}` by name next to `**{a.kwarg.arg}`, which carries the user's field names: a class with a field called "
+                        f"`{named[0]}` raises `got multiple values for argument '{named[0]}'` in the predicate form (Zone(From(zs), domain='y')), where the explicit "
+                        f"form works", line=f.lineno))
+    if len(out) < 6:
+        raise AnalysisError("fewer carriers of user keyword arguments than confirmed by reading")
+    return out
